@@ -146,7 +146,7 @@ func (fr *frame) get(key ssa.Value) value {
 	case *ssa.Builtin:
 		return key
 	case *ssa.Const:
-		if fr.i.scaleFrom != 0 && key.Value != nil && key.Value.Kind() == constant.Int {
+		if fr.i.scaleFrom != 0 && fr.i.path != nil && key.Value != nil && key.Value.Kind() == constant.Int {
 			if v, ok := constant.Int64Val(key.Value); ok && v == fr.i.scaleFrom && !strings.Contains(fr.i.prog.Fset.Position(fr.fn.Pos()).Filename, "zz_verif") && fr.fn.Pkg != nil && strings.HasPrefix(fr.fn.Pkg.Pkg.Path(), "github.com/XiaoMi/Gaea") {
 				if bt, ok := key.Type().Underlying().(*types.Basic); ok && bt.Info()&types.IsInteger != 0 {
 					return constValue(ssa.NewConst(constant.MakeInt64(fr.i.scaleTo), key.Type()))
